@@ -147,6 +147,18 @@ async def run_scenario(sc):
     def pid():
         if len(PROCS) > n_procs0:
             seen["pid"] = PROCS[-1].pid
+        if "pid" not in seen:
+            # spawned, but the Process object never came back to the code under test (cancelled inside open_process): the
+            # child is found by the log path on its command line, which is unique to this scenario
+            for d in os.listdir("/proc"):
+                if d.isdigit():
+                    try:
+                        with open(f"/proc/{d}/cmdline", "rb") as f:
+                            if logpath.encode() in f.read():
+                                seen["pid"] = int(d)
+                                break
+                    except OSError:
+                        pass
         return seen.get("pid")
 
     async def body(read, write):
@@ -232,6 +244,12 @@ async def run_scenario(sc):
         finally:
             info["t1"] = now()
 
+    def enter_trigger():
+        # the cancellation / deadline is due WHILE the context is being entered (the child may or may not have been spawned yet)
+        if sc.get("enter_deadline") is not None:
+            info["t0"] = now() + sc["enter_deadline"]
+            ctl["trigger"](sc["enter_deadline"])
+
     async def drive():
         # Runs in a task of its own: a cancel scope the code under test leaks (enters and never leaves) keeps
         # cancelling the task that entered it - that must not be the worker's main task.
@@ -241,6 +259,7 @@ async def run_scenario(sc):
         elif path == "cancel_scope":
             with anyio.CancelScope() as scope:
                 ctl["trigger"] = lambda dt: loop.call_later(dt, scope.cancel)
+                enter_trigger()
                 await ctx()
             info["exit"] = "cancelled" if scope.cancelled_caught else "returned"
         elif path == "timeout_scope":
@@ -248,11 +267,13 @@ async def run_scenario(sc):
                 def _trig(dt, scope=scope):
                     scope.deadline = anyio.current_time() + dt
                 ctl["trigger"] = _trig
+                enter_trigger()
                 await ctx()
             info["exit"] = "cancelled" if scope.cancelled_caught else "returned"
         elif path == "cancel_task":
             task = asyncio.ensure_future(ctx())
             ctl["trigger"] = lambda dt: loop.call_later(dt, task.cancel)
+            enter_trigger()
             try:
                 await task
                 info["exit"] = "returned"
@@ -264,6 +285,7 @@ async def run_scenario(sc):
             try:
                 async with asyncio.timeout(None) as tm:
                     ctl["trigger"] = lambda dt: tm.reschedule(loop.time() + dt)
+                    enter_trigger()
                     await ctx()
                 info["exit"] = "returned"
             except TimeoutError:
@@ -315,7 +337,7 @@ async def run_scenario(sc):
         await asyncio.sleep(SETTLE)
         state1 = pstate(p) if p else "never-started"
         fd_after = nfd()
-        rc = PROCS[-1].returncode if p else None
+        rc = PROCS[-1].returncode if (p and len(PROCS) > n_procs0) else None
         spawned = len(PROCS) - n_procs0
         if "task" in bg:
             try:
